@@ -280,7 +280,7 @@ fn run_q(r: &RLN, q: &Q, via_ffi: bool) -> Result<Vec<u8>, String> {
             use std::mem::MaybeUninit;
             let ctx: *const RLN = r;
             let mut ob = MaybeUninit::<ffi::Buffer>::uninit();
-            let mut vb = MaybeUninit::<bool>::uninit();
+            let mut vb = MaybeUninit::<bool>::new(true);
             let bytes = |ok: bool, ob: &MaybeUninit<ffi::Buffer>| if ok { crate::ffiu::read_out(ob) } else { vec![0xEE] };
             let verdict = |ok: bool, vb: &MaybeUninit<bool>| if ok { vec![unsafe { vb.assume_init_read() } as u8] } else { vec![2u8] };
             return match q {
@@ -675,6 +675,76 @@ fn cold_instances(rep: &mut Rep, sh: &Shared, n_instances: usize, threads: usize
     }
 }
 
+// ---------------------------------------------------------------------------------------------
+// (2d) two witness graphs in use at the same time
+// ---------------------------------------------------------------------------------------------
+
+/// The library takes the witness graph as an argument (custom circuits: `new_with_params`). Threads that work with
+/// different graphs at the same time must not see each other's graph: the bundled graph and a variant of it with two
+/// witness signals exchanged are evaluated concurrently and compared with their sequential results.
+fn two_graphs(rep: &mut Rep, seed: u64, threads: usize, calls_per_thread: usize) {
+    use rln::circuit::iden3calc::storage::{deserialize_witnesscalc_graph, serialize_witnesscalc_graph};
+    let ga: &'static [u8] = rln::circuit::graph_from_folder();
+    let gb: Vec<u8> = match catch(|| -> Result<Vec<u8>, String> {
+        let (nodes, mut signals, inputs) = deserialize_witnesscalc_graph(Cursor::new(ga)).map_err(|e| e.to_string())?;
+        let n = signals.len();
+        if n < 8 {
+            return Err("too few signals".into());
+        }
+        signals.swap(1, n - 1);
+        signals.swap(2, n / 2);
+        let mut out = vec![];
+        serialize_witnesscalc_graph(&mut out, &nodes, &signals, &inputs).map_err(|e| e.to_string())?;
+        Ok(out)
+    }) {
+        Ok(Ok(b)) => b,
+        other => {
+            rep.inconclusive(format!("two-graphs leg: could not build the second graph: {:?}", other.map_err(|p| p.msg)));
+            return;
+        }
+    };
+    let mut rng = rng_for(seed, "c18-two-graphs");
+    let mut m = Model::new(20, poseidon_h, Fr::from(0u64));
+    let secret = rand_fr(&mut rng);
+    m.set(5, rate_commitment_ref(&secret, &Fr::from(50u64)));
+    let (path, bits) = m.proof(5);
+    let ws: Vec<Witness> = (0..4u64).map(|k| Witness { secret, limit: Fr::from(50u64), msg_id: Fr::from(k), path: path.clone(), bits: bits.clone(), x: rand_fr(&mut rng), ext: rand_fr(&mut rng) }).collect();
+    let eval = |w: &Witness, g: &[u8]| catch(|| crate::noderef::digest_frs(&rln::circuit::calculate_rln_witness(named_inputs(w), g)));
+    let mut expected: Vec<[String; 2]> = vec![];
+    for w in &ws {
+        match (eval(w, ga), eval(w, &gb)) {
+            (Ok(a), Ok(b)) => expected.push([a, b]),
+            _ => {
+                rep.inconclusive("two-graphs leg: sequential evaluation failed".to_string());
+                return;
+            }
+        }
+    }
+    if expected.iter().all(|e| e[0] == e[1]) {
+        rep.inconclusive("two-graphs leg: the variant graph gives the same witnesses (vacuous)".to_string());
+        return;
+    }
+    let barrier = Arc::new(Barrier::new(threads));
+    let gbr: &[u8] = &gb;
+    par_shards(rep, threads, |t, r| {
+        barrier.wait();
+        for k in 0..calls_per_thread {
+            // half of the threads start on each graph; every thread alternates now and then
+            let which = (t + k / 3) % 2;
+            let wi = (t + k) % ws.len();
+            let got = eval(&ws[wi], if which == 0 { ga } else { gbr });
+            r.ev();
+            match got {
+                Ok(d) if d == expected[wi][which] => {}
+                Ok(_) => r.violation("two-graphs:witness-differs-from-sequential".to_string(), json!({"thread": t, "call_no": k, "graph": if which == 0 { "bundled" } else { "variant" }, "threads": threads})),
+                Err(p) => r.violation("two-graphs:panic".to_string(), json!({"thread": t, "panic": p.msg, "at": p.loc})),
+            }
+        }
+        r.stratum(format!("two-graphs|threads={threads}|thread-parity={}", t % 2));
+    });
+    rep.countn("two_graph_evaluations", (threads * calls_per_thread) as u64);
+}
+
 /// `vh c18-firstuse <seed>`: fresh process; N threads make their first call simultaneously on a new instance
 pub fn firstuse_child(args: &[String]) -> i32 {
     let seed: u64 = args[2].parse().unwrap();
@@ -868,7 +938,7 @@ fn recreate_loop(rep: &mut Rep, seed: u64, cycles: usize) {
 }
 
 pub fn run(rep: &mut Rep, args: &[String]) {
-    rep.rule = "(1) the transcript (roots after 24 batch updates incl. rayon-parallel range writes on a persistent tree, serialized and graph witnesses, proof values, proof generation + verification verdicts, verdicts on a fixed corpus of valid/tampered/truncated messages) of separate processes with RAYON_NUM_THREADS in {1,2,4,16} must have the same SHA-256; (2) every read-only call kind (verify*, get_root/leaf/proof/subtree_root/empty indices/metadata, hash, poseidon_hash, seeded keygen, witness calculation, recover) issued concurrently by 2..64 threads on one shared instance, through &RLN and through *const RLN of the FFI, must return its sequential result; (2b) a storm of cheap pure calls (Poseidon through three entry points, hash-to-field, seeded key derivation) from 2..16 threads walking over the same few related inputs must return the from-spec reference values; (2c) fresh instances receive their very first calls from 8 threads at once (no sequential warm-up) and must answer like a sequentially queried twin; fresh processes race the first use of the lazily initialised globals; (4) create-write-flush-drop-create cycles on one storage location. distinct_nontrivial = distinct (call kind x concurrently in-flight call kind) overlaps actually observed, pool sizes, recreate latency classes".into();
+    rep.rule = "(1) the transcript (roots after 24 batch updates incl. rayon-parallel range writes on a persistent tree, serialized and graph witnesses, proof values, proof generation + verification verdicts, verdicts on a fixed corpus of valid/tampered/truncated messages) of separate processes with RAYON_NUM_THREADS in {1,2,4,16} must have the same SHA-256; (2) every read-only call kind (verify*, get_root/leaf/proof/subtree_root/empty indices/metadata, hash, poseidon_hash, seeded keygen, witness calculation, recover) issued concurrently by 2..64 threads on one shared instance, through &RLN and through *const RLN of the FFI, must return its sequential result; (2b) a storm of cheap pure calls (Poseidon through three entry points, hash-to-field, seeded key derivation) from 2..16 threads walking over the same few related inputs must return the from-spec reference values; (2d) the bundled witness graph and a variant of it are evaluated by 8 threads at the same time and must give their sequential results; (2c) fresh instances receive their very first calls from 8 threads at once (no sequential warm-up) and must answer like a sequentially queried twin; fresh processes race the first use of the lazily initialised globals; (4) create-write-flush-drop-create cycles on one storage location. distinct_nontrivial = distinct (call kind x concurrently in-flight call kind) overlaps actually observed, pool sizes, recreate latency classes".into();
     rep.assumptions = vec!["schedules are sampled, not enumerated; a watchdog timeout is inconclusive, not a violation".into()];
     let thorough = rep.thorough();
     let seed = rep.seed;
@@ -896,6 +966,9 @@ pub fn run(rep: &mut Rep, args: &[String]) {
         for threads in [2usize, 4, 8, 16, 16] {
             storm(rep, seed.wrapping_add(threads as u64), threads, per.max(64));
         }
+    }
+    if want("graphs") {
+        two_graphs(rep, seed, 8, (if thorough { 400 } else { 40 }) * scale.max(25) / 100);
     }
     if want("firstuse") {
         if let Ok(me) = std::env::var("VH_SELF").or_else(|_| std::env::current_exe().map(|p| p.to_string_lossy().to_string())) {
